@@ -261,7 +261,9 @@ func (e *executor) buildQuery(params *storagebeacon.QueryParams) (string, []any)
 		for _, as := range params.StartsAt {
 			switch {
 			case as.IsZero():
-				continue
+				// The full wildcard matches every beacon, also next to
+				// other entries of the list.
+				subQ = append(subQ, "1=1")
 			case as.ISD() == 0:
 				subQ = append(subQ, "StartAs=?")
 				args = append(args, as.AS())
